@@ -1,6 +1,7 @@
 package cdi
 
 import (
+	"github.com/fsnotify/fsnotify"
 	oci "github.com/opencontainers/runtime-spec/specs-go"
 )
 
@@ -69,7 +70,8 @@ func H_C12_locks() {
 	} else {
 		spec = &Spec{path: "/nowhere"}
 	}
-	op := nondetChoice("op", 17)
+	op := nondetChoice("op", 18)
+	wref, derrs := c.watch, c.dirErrors // read here: the harness itself must not touch the guarded state later
 	vguard(&c.Mutex, c, c.watch, c.specs, c.devices, c.errors, c.dirErrors, c.specDirs)
 	switch op {
 	case 0:
@@ -106,6 +108,14 @@ func H_C12_locks() {
 		_ = c.Configure()
 	case 16:
 		_, _ = c.InjectDevices(nil, "v0/c=a")
+	case 17:
+		// the watcher goroutine's body, processing one pending event (the watch may have been stopped meanwhile)
+		fsw := &fsnotify.Watcher{Events: make(chan fsnotify.Event, 2), Errors: make(chan error, 1)}
+		vWatchers[fsw] = &vWatcherState{watches: map[string]bool{dir: true}}
+		evs := []fsnotify.Event{{Name: dir + "/a.json", Op: fsnotify.Write}, {Name: dir, Op: fsnotify.Remove}, {Name: dir + "/x.json", Op: fsnotify.Create}}
+		fsw.Events <- evs[nondetChoice("event", len(evs))]
+		close(fsw.Events)
+		wref.watch(fsw, &c.Mutex, c.refresh, derrs)
 	}
 	vunguard()
 	vreach("operation-returned")
